@@ -40,6 +40,7 @@ def short(d):
     return d.strftime("%Y%m%d")[2:]
 
 
+SAME_DAY_MOD_RATE = 0.0     # modify date = creation date (set by C01 / C02 / C12; an index-side known finding of C11)
 SHARED_NAME_RATE = 0.25
 ZCH = "0123456789ABCDEFGHJKLMNPRTUVWXYZabcdefhkmnorstuvwxz"
 
@@ -128,7 +129,7 @@ def gen_item(rng, uid):
         d = rand_date(rng); zid = rand_zid(rng, d); cdate = d; first = [zid]
     elif ident == "mod+zid":
         d = rand_date(rng); zid = rand_zid(rng, d); cdate = d
-        mod = rand_date(rng); first = [short(mod), zid]
+        mod = d if rng.random() < SAME_DAY_MOD_RATE else rand_date(rng); first = [short(mod), zid]
     elif ident == "long":
         cdate = rand_date(rng, 2000, MAX_YEAR); first = [cdate.strftime("%Y-%m-%d")]
     words = body_words(rng, uid, own)
